@@ -111,6 +111,31 @@ def run(prop, tier, seed):
             verdict.violation("crash:%s:%s" % (last["method"], json.dumps(last["shape"], sort_keys=True)),
                               "the daemon died / stopped answering while handling %s %s (reproduced with %d message(s)): %s" % (last["method"], last["shape"], len(plan), panic[:2] or err[-200:]),
                               dict(messages=plan, stderr=err))
+        # phase 2: the same message classes CONCURRENTLY (16 request streams next to a stream that keeps creating accounts through
+        # Dirk); afterwards a fresh client must still be answered ("... or to stop answering other requests")
+        light = [m_ for m_ in msgs if m_["shape"].get("count") not in ("300",) and "len100000" not in m_["shape"].values() and not m_["method"].startswith("Dkg")]
+        storm_plan = dict(calls=[], storm=dict(workers=16, generates=200 if tier == "quick" else 1500, msgs=light[:400]))
+        storm = None
+        hangs = []
+        for attempt in range(3):
+            evs_s, rc_s, err_s = apifamily.run_apidrv(storm_plan, wd, "storm%d" % attempt, timeout=1500)
+            st = [e for e in evs_s if e["ev"] == "Storm"]
+            if rc_s == 0 and st:
+                storm = storm or st[0]
+                if not hangs:
+                    break
+                continue
+            if rc_s == 3 and st:
+                hangs.append(st[0])
+                if len(hangs) >= 2:
+                    break
+                continue
+            raise Inconclusive("concurrent phase: apidrv exited %s: %s" % (rc_s, err_s[-300:]))
+        if len(hangs) >= 2:
+            verdict.violation("hang:concurrent-load", "the daemon stopped answering under concurrent client load (account creation next to signing requests that "
+                              "address the created accounts); reproduced on a fresh server: %s" % hangs[0], dict(storm=storm_plan["storm"], observations=hangs))
+        elif hangs:
+            raise Inconclusive("the daemon stopped answering once under concurrent load but not on the following attempts: %s" % hangs[0])
         if unreproduced and not verdict.violations:
             raise Inconclusive("%d server death(s) could not be reproduced, e.g. after %s: %s" % (len(unreproduced), unreproduced[0]["message"], unreproduced[0]["stderr"][:400]))
         rc = verdict.finish()
@@ -119,7 +144,7 @@ def run(prop, tier, seed):
                         "combinations; each is concretised (seeded byte fillings), sent over real TLS to the real gRPC service from an authenticated client (key-generation "
                         "messages from non-peers) and followed by a liveness probe from another client; distinct = distinct (method, shape) pairs",
                    samples=msgs[:3], per_method=stats, answered=answered, states=max(r.distinct, 1), transitions=sum(v["messages"] for v in stats.values()),
-                   traces_validated_against_impl=done, crashes=len(crashes), exhaustive=False)
+                   traces_validated_against_impl=done, crashes=len(crashes), concurrent_phase=storm, exhaustive=False)
         write_evidence(prop, tier, seed, "exploration", cov, time.time() - t0, violations=len(verdict.violations),
                        assumptions=["decides crash-freedom over the shape abstraction, not over all byte contents",
                                     "TLC is the keeper of the shape catalogue and of the pair-coverage obligation; the covering set is built greedily by the harness"])
